@@ -73,7 +73,7 @@ func famPubKeyParse(k *mon.Case) {
 	k.Desc(map[string]any{"family": "pubkey.parse", "key": hx(enc)})
 
 	want, rerr := refec.ParsePubKey(enc)
-	encBuf := append([]byte{}, enc...)
+	encBuf := exact(enc)
 	got, err := btcec.ParsePubKey(encBuf)
 	if !bytes.Equal(encBuf, enc) {
 		k.Failf("aliasing:btcec.ParsePubKey:caller-input-modified:key", "before=%x after=%x", enc, encBuf)
